@@ -6,6 +6,9 @@
     out:  `<tagval-hex>` | `err` | `panic` | `opaque` | `hang`
           `T <tagtext-hex> <cfg>`  the whole text of the tag (value part and arguments): NewProperty cuts the arguments off
     out:  `<tagstr-hex> <outcome as above>` | `panic`
+          `W <kind> <tagtext-hex> <cfg>`  (eighth round) the same text on a field of the given kind; the observation is that of
+                                  `T` (what the field's kind does to the bound value is judged end to end by the oracle
+                                  placeholder-as-written, which compares two real runs)
 -/
 import Ioc.Placeholder
 namespace Driver.Placeholder
@@ -103,6 +106,13 @@ def handle (line : String) : String :=
   match line.splitOn " " with
   | "H" :: toks => handleH toks
   | "T" :: th :: toks =>
+    match fromHex th, parseVal (2 * toks.length + 2) toks with
+    | some s, some (.map cfg, []) =>
+      match processText cfg s with
+      | none => "panic"
+      | some (v, r) => toHex v ++ " " ++ showRes r
+    | _, _ => "bad-line"
+  | "W" :: _kind :: th :: toks =>
     match fromHex th, parseVal (2 * toks.length + 2) toks with
     | some s, some (.map cfg, []) =>
       match processText cfg s with
